@@ -1,9 +1,10 @@
 #!/bin/bash
-# usage: run_all.sh <tier> [ids...]   -- runs checks sequentially, prints one summary line each
-cd /verif
+# usage: run_all.sh <tier> [ids...]   -- runs checks sequentially from this checkout, one summary line each
+cd "$(dirname "$0")/.."
 tier=${1:-quick}; shift
 ids=${@:-C01 C02 C03 C04 C05 C06 C07 C08 C09 C10 C11 C12 C13 C14 C15 C16 C17 C18 C19 C20}
+mkdir -p logs
 for p in $ids; do
-  /venv/bin/python -m bpmc.run $p --tier $tier > /dev/shm/run_$p.log 2>&1
-  echo "$p exit=$? $(grep -c '^VIOLATION' /dev/shm/run_$p.log) violations; $(grep -c '^KNOWN-FINDING' /dev/shm/run_$p.log) known; $(tail -1 /dev/shm/run_$p.log | cut -c1-160)"
+  /usr/bin/time -f "%e s wall, %M KB maxrss" /venv/bin/python -m bpmc.run $p --tier $tier > logs/run_${tier}_$p.log 2>&1
+  echo "$p exit=$? $(grep -c '^VIOLATION' logs/run_${tier}_$p.log) violations; $(grep -c '^KNOWN-FINDING' logs/run_${tier}_$p.log) known; $(grep "^$p tier" logs/run_${tier}_$p.log | cut -c1-170) | $(tail -1 logs/run_${tier}_$p.log)"
 done
